@@ -192,7 +192,7 @@ VARIANTS = [
     ("initial_value_truthy", "pydcop/dcop/objects.py", "        if initial_value is not None and initial_value not in self.domain.values:", "        if initial_value and initial_value not in self.domain.values:", "break", "R-INITIAL"),
     ("dba_index_value", "pydcop/algorithms/dba.py", "        self.value_selection(random.choice(self.variable.domain),", "        self.value_selection(random.randrange(len(self.variable.domain)),", "break", "R-PROV"),
     ("dsa_neighbor_value", "pydcop/algorithms/dsa.py", "            self.value_selection(random.choice(best_values), best_cost)", "            self.value_selection(random.choice(list(self.current_cycle.values())), best_cost)", "break", "R-PROV"),
-    ("maxsum_select_cost", "pydcop/algorithms/maxsum.py", "    return min_max_value, min_max_cost", "    return min_max_cost, min_max_value", "break", "R-PROV"),
+    ("maxsum_select_cost", "pydcop/algorithms/maxsum.py", "    return optimal_d[0], optimal_d[1]", "    return optimal_d[1], optimal_d[0]", "break", "R-PROV"),
     ("syncbb_path_cost_as_value", _SB, "                new_path.append((self.variable.name, value, cost))", "                new_path.append((self.variable.name, cost, value))", "break", "R-CONTRACT"),
     ("syncbb_backward_full_path", _SB, "                    SyncBBBackwardMessage(current_path[:-1], self.upper_bound),", "                    SyncBBBackwardMessage(current_path, self.upper_bound),", "break", "R-CONTRACT"),
     ("syncbb_unpack_swapped", _SB, "        var, val, cost = current_path[-1]", "        var, cost, val = current_path[-1]", "break", "R-CONTRACT"),
